@@ -486,7 +486,7 @@ pub fn run(args: &[String]) -> i32 {
         .map(|s| s.parse::<u64>().unwrap_or_else(|_| die("seed must be an unsigned integer")))
         .unwrap_or(DEFAULT_SEED);
     let jobs = arg_u64(args, "--jobs", std::thread::available_parallelism().map(|n| n.get() as u64).unwrap_or(4)).max(1);
-    let total = arg_u64(args, "--runs", if tier == 0 { 24_000 } else { 400_000 });
+    let total = arg_u64(args, "--runs", if tier == 0 { 24_000 } else { 1_000_000 });
     let evidence = arg_val(args, "--evidence").unwrap_or_else(|| die("--evidence FILE"));
     let replays = arg_val(args, "--replays").unwrap_or_else(|| die("--replays DIR"));
     let known_path = arg_val(args, "--known");
